@@ -106,6 +106,9 @@ def match_known_finding(prop, o, r):
         ok = True
         if cond == 'negative_activity_estimate':
             ok = case.get('kind') == 'fold_order' and min(case.get('activity_estimates', [0])) < 0
+        if cond == 'demand_longer_than_8':
+            tasks = [t for key in ('pickups', 'deliveries', 'replacements', 'services') for t in ((case.get('job') or {}).get(key) or [])]
+            ok = case.get('kind') == 'job_rules' and any(len(t.get('demand') or []) > 8 for t in tasks) and 'panicked' in (o.detail or '')
         if ok:
             o.status = 'known-finding'
             o.detail = f"{f['key']}: {f['what']} [this run: {o.replay}]"
